@@ -43,6 +43,7 @@ class Registry(object):
     def __init__(self):
         self.items = []          # (kind, bytes, window)
         self._seen = set()
+        self._win, self._win_n = [], -1
 
     def add(self, kind, value, window=8):
         value = bytes(value)
@@ -59,16 +60,23 @@ class Registry(object):
         return sorted(set(k for k, _, _ in self.items))
 
     def windows(self):
-        """[(kind, window bytes)] de-duplicated."""
+        """[(kind, window bytes, latin-1 text, hex text)] de-duplicated.  8-byte windows at every
+        offset; 16-byte windows (RSA private numbers) every 4 bytes, i.e. any run of >= 19
+        consecutive bytes contains one."""
+        if self._win_n == len(self.items):
+            return self._win
         out = []
         seen = set()
         for kind, v, w in self.items:
-            for i in range(0, len(v) - w + 1):
+            step = 1 if w <= 8 else 4
+            last = len(v) - w
+            for i in sorted(set(list(range(0, last + 1, step)) + [last])):
                 win = v[i:i + w]
                 if (kind, win) in seen:
                     continue
                 seen.add((kind, win))
-                out.append((kind, win))
+                out.append((kind, win, win.decode("latin-1"), win.hex()))
+        self._win, self._win_n = out, len(self.items)
         return out
 
     def contains(self, data):
@@ -230,13 +238,12 @@ class Haystack(object):
         self.hex = hexnorm(text)
         self.blobs = number_blobs(text) + base64_blobs(text)
 
-    def find(self, win):
+    def find(self, win, s, hx):
         """Form in which the window occurs, or None."""
-        s = win.decode("latin-1")
         for i, r in enumerate(self.raw):
             if s in r:
                 return "raw" if i == 0 else "escaped"
-        if win.hex() in self.hex:
+        if hx in self.hex:
             return "hex"
         for b in self.blobs:
             if win in b:
@@ -253,10 +260,10 @@ def scan_text(text, registry, hay=None):
     """[(kind, form)] of canaries visible in text (first window per kind)."""
     hay = hay or Haystack(text)
     found = {}
-    for kind, win in registry.windows():
+    for kind, win, raw, hx in registry.windows():
         if kind in found:
             continue
-        f = hay.find(win)
+        f = hay.find(win, raw, hx)
         if f:
             found[kind] = f
     for kind, v, _ in registry.items:
@@ -297,42 +304,51 @@ def scan_frames(entries, frames):
     escaped form (checked on 16-byte-aligned 32-byte windows that contain a TTLV tag prefix, so
     that a long text attribute quoted in a message is not mistaken for a message encoding)."""
     out = []
-    if not frames:
+    if not frames or not entries:
         return out
-    fhex = [(d, f.hex()) for d, f in frames]
+    uniq = []
+    seen = set()
+    for d, f in frames:
+        if f not in seen and len(f) >= FRAME_MIN:
+            seen.add(f)
+            uniq.append((d, f))
     texts = {}
     for e in entries:
         texts.setdefault(e["text"], e)
+    joined = "\n\x00\n".join(texts)
+    hex_suspect = _HEXRUN.search(hexnorm(joined)) is not None
+    raw_windows = []
+    for d, f in uniq:
+        for i in range(0, len(f) - FRAME_MIN + 1, 16):
+            w = f[i:i + FRAME_MIN]
+            if b"\x42\x00" in w:
+                raw_windows.append((d, w.decode("latin-1")))
+    ju = unescape(joined)
+    raw_suspect = any(s in joined or s in ju for _, s in raw_windows)
+    if not hex_suspect and not raw_suspect:
+        return out
+    fhex = [(d, f.hex()) for d, f in uniq]
     for text, e in texts.items():
         hit = None
-        hn = hexnorm(text)
-        for m in _HEXRUN.finditer(hn):
-            run = m.group(0)
-            for d, fh in fhex:
-                if len(fh) < 2 * FRAME_MIN:
-                    continue
-                for i in range(0, len(run) - 2 * FRAME_MIN + 1):
-                    if run[i:i + 2 * FRAME_MIN] in fh:
-                        hit = (d, "hex")
+        if hex_suspect:
+            for m in _HEXRUN.finditer(hexnorm(text)):
+                run = m.group(0)
+                for d, fh in fhex:
+                    for i in range(0, len(run) - 2 * FRAME_MIN + 1):
+                        if run[i:i + 2 * FRAME_MIN] in fh:
+                            hit = (d, "hex")
+                            break
+                    if hit:
                         break
                 if hit:
                     break
-            if hit:
-                break
-        if not hit and len(text) >= FRAME_MIN:
-            raws = [text, unescape(text)]
-            for d, f in frames:
-                for i in range(0, len(f) - FRAME_MIN + 1, 16):
-                    w = f[i:i + FRAME_MIN]
-                    if b"\x42\x00" not in w:
-                        continue
-                    s = w.decode("latin-1")
-                    if s in raws[0]:
-                        hit = (d, "raw")
-                    elif s in raws[1]:
-                        hit = (d, "escaped")
-                    if hit:
-                        break
+        if not hit and raw_suspect:
+            tu = unescape(text)
+            for d, s in raw_windows:
+                if s in text:
+                    hit = (d, "raw")
+                elif s in tu:
+                    hit = (d, "escaped")
                 if hit:
                     break
         if hit:
